@@ -313,3 +313,48 @@ func (s *Sched) AfterUnlock(m interface{}) {
 	s.Log.Add(t.ID, "unlock", "")
 	t.Yield("unlock")
 }
+
+// TapeBook hands out schedule tapes to the schedulers a scenario creates, in
+// creation order. Without pinned tapes every scheduler draws from its own
+// PRNG sub-stream and the decisions are recorded; a replay file pins them, so
+// the schedule is explicit data that the shrinker can shorten and zero.
+type TapeBook struct {
+	Tapes    [][]int
+	Have     bool
+	n        int
+	Recorded [][]int
+	scheds   []*Sched
+}
+
+// NewSched creates the next scheduler of the scenario.
+func (b *TapeBook) NewSched(log *Log, seed uint64, label, shape string) *Sched {
+	var tape []int
+	var fb *RNG
+	if b.Have {
+		if b.n < len(b.Tapes) {
+			tape = b.Tapes[b.n]
+		}
+		if tape == nil {
+			tape = []int{}
+		}
+	} else {
+		fb = NewRNG(seed, label)
+	}
+	b.n++
+	s := NewSched(log, tape, fb, shape)
+	b.scheds = append(b.scheds, s)
+	return s
+}
+
+// Collect returns the decisions of all schedulers created so far.
+func (b *TapeBook) Collect() [][]int {
+	var out [][]int
+	for _, s := range b.scheds {
+		r := s.Recorded
+		if r == nil {
+			r = []int{}
+		}
+		out = append(out, r)
+	}
+	return out
+}
